@@ -148,6 +148,24 @@ func crashfuzzCmd(args []string) int {
 	}
 	cases := fzCases()
 	ncase := 0
+	// a peer that connects and sends nothing: everybody else must still be served meanwhile
+	{
+		var silent []net.Conn
+		for i := 0; i < 3; i++ {
+			if c, err := net.DialTimeout("tcp", srv.Addr, time.Second); err == nil {
+				silent = append(silent, c)
+			}
+		}
+		time.Sleep(100 * time.Millisecond)
+		t0 := time.Now()
+		ok := alive()
+		ms := time.Since(t0).Milliseconds()
+		sink.Emit("drv", "crash.case", "msg", "Login", "class", "silent", "phase", "first-message", "alive", ok && ms < 4000, "probe_ms", ms)
+		ncase++
+		for _, c := range silent {
+			c.Close()
+		}
+	}
 	for round := 0; round < *rounds; round++ {
 		// phase 1: as the first message of a fresh connection, four connections at a time
 		for i := 0; i < len(cases); i += 4 {
